@@ -19,7 +19,7 @@ Switches (code as it stands = both false):
                    fixes/C32-settings-merge-keeps-cli-slices.patch (copy only what the layer set).
 * `keepUnusable` — a raw value that is not blank but yields no item (`","`) becomes the empty list,
                    which downstream means "not configured"; `true` =
-                   fixes/C32-settings-separators-only-proxy-list.patch (the raw text is kept as one
+                   fixes/C32-separators-only-narrow.patch (the raw text is kept as one
                    — unparsable — entry, so the list stays "configured").
 Core Lean only.
 -/
